@@ -222,12 +222,23 @@ class FaultyBehaviour(RandomBehaviour):
         kind, arg = (list(f["how"]) + [None])[:2]
         t = ctx.steptime[p.sid]
         if p.kind == "step":
-            rep.value = {"rel": lambda: t + arg, "abs": lambda: arg, "list_rel": lambda: [t + arg], "none": lambda: None}[kind]()
+            rep.value = _bad_next(kind, arg, t)
         else:
             data = rep.value
             data.pop("time", None)
             data["time"] = t + arg if kind == "time_rel" else arg
         return rep
+
+
+def _bad_next(kind, arg, t):
+    """Malformed next-step replies: rel (t+arg), abs (arg), list_rel ([t+arg]), none, and numbers that are not integers
+    although they are later than t: frac (t + Fraction(arg[0], arg[1])), dec (Decimal), cplx (complex)."""
+    import decimal
+    import fractions
+
+    return {"rel": lambda: t + arg, "abs": lambda: arg, "list_rel": lambda: [t + arg], "none": lambda: None,
+            "frac": lambda: t + fractions.Fraction(arg[0], arg[1]), "dec": lambda: decimal.Decimal(t) + decimal.Decimal(str(arg)),
+            "cplx": lambda: complex(t + arg, 0)}[kind]()
 
 
 class AgentBehaviour(RandomBehaviour):
@@ -255,7 +266,13 @@ class AgentBehaviour(RandomBehaviour):
                     # ONE set_data call that addresses several entities of the target (each gets its own value)
                     if r.random() < 0.6:
                         dests[f"{a['target']}.{e2}"] = {a["attr"]: tok(p.sid, p.k, "sd" + (str(j) if j else "") + e2)}
-                rep.calls.append(("set_data", {f"{p.sid}.E0": dests}))
+                payload = {f"{p.sid}.E0": dests}
+                mt = a.get("multi")
+                if mt and r.random() < 0.7:
+                    # ONE call of an agent simulator with several agent entities that controls several simulators:
+                    # every (agent entity, controlled simulator) pair carries its own value
+                    payload = {f"{p.sid}.{se}": {f"{t}.E0": {a["attr"]: tok(p.sid, p.k, f"sd{j}{se}{t}")} for t in mt["targets"]} for se in mt["srcs"]}
+                rep.calls.append(("set_data", payload))
         if a and a.get("get") and r.random() < 0.5:
             rep.calls.append(("get_data", {f"{a['target']}.E0": [a["get"]]}))
         for ill in self.illegal:
@@ -378,7 +395,7 @@ class FaultyRTBehaviour(RTBehaviour):
         kind, arg = (list(f["how"]) + [None])[:2]
         t = ctx.steptime[p.sid]
         if p.kind == "step":
-            rep.value = {"rel": lambda: t + arg, "abs": lambda: arg, "list_rel": lambda: [t + arg], "none": lambda: None}[kind]()
+            rep.value = _bad_next(kind, arg, t)
             if f.get("event"):
                 rep.calls = [c for c in rep.calls if c[0] != "set_event"] + [("set_event", t + f["event"])]
         else:
